@@ -145,6 +145,10 @@ pub mod encrypted_key_storage;
 /// Persistent state management with crash recovery
 pub mod persistent_state;
 
+/// Verification hooks (feature `verif-hooks`): crash-point callbacks and test knobs
+#[cfg(feature = "verif-hooks")]
+pub mod verif_hooks;
+
 /// Adaptive P2P network implementation
 pub mod adaptive;
 
